@@ -82,10 +82,22 @@ func (p projSrc) build() (j kit.JApi, ok bool, msg string) {
 	return jj, true, ""
 }
 
+// depmapDocs reproduce the recorded finding C06-dependency-map-order: jsight-schema-core ranges over Go maps of type
+// names (TypesList) while it checks and compiles user types, so which of several faults is reported, and which generated
+// regex example a schema gets, changes from build to build.
+var depmapDocs = map[string]string{
+	"regex-example": "JSIGHT 0.3\nTYPE @r regex\n/[a-c]{3}x/\nTYPE @a\n{\"p\": @r}\nTYPE @b\n{\"q\": @r}\nGET /x\n  200\n  {\"p\": @r}\n",
+	"fault-site":    "JSIGHT 0.3\nTYPE @s\n{\"b\": @typo | @l}\nTYPE @l\n{\n  \"s\": @s // {optional: true}\n}\n",
+}
+
 // sources: "docs" (the lazy documents), "corpus:<repo>[:step]" (accepted corpus files), "model:<tlc-output>" (MC_C02 documents)
 func loadSources(spec string) ([]projSrc, error) {
 	var out []projSrc
 	switch {
+	case spec == "depmap":
+		for k, v := range depmapDocs {
+			out = append(out, projSrc{name: "depmap:" + k, text: v})
+		}
 	case spec == "docs":
 		for k, v := range lazyDocs {
 			out = append(out, projSrc{name: "doc:" + k, text: v})
@@ -157,13 +169,26 @@ func loadSources(spec string) ([]projSrc, error) {
 		}
 	case strings.HasPrefix(spec, "types:"):
 		// the type graphs of MC_C01types at every use site
+		nTypes, stepT := 0, 1
+		fmt.Sscan(os.Getenv("VH_SRC_STEP"), &stepT)
 		err := forEachEmitted(spec[6:], "E", func(js string) error {
+			nTypes++
+			if stepT > 1 && nTypes%stepT != 0 {
+				return nil
+			}
 			var cs struct {
 				G    []typeShape `json:"g"`
 				Site string      `json:"site"`
 			}
 			if err := json.Unmarshal([]byte(js), &cs); err != nil {
 				return err
+			}
+			for _, sh := range cs.G {
+				if sh.K == "keyref" {
+					// (a key shortcut of a union that mentions itself kills the process - recorded finding of C01;
+					// these sources are built in-process)
+					return nil
+				}
 			}
 			out = append(out, projSrc{name: fmt.Sprintf("types:%d", len(out)+1), text: renderTypeGraph(cs.G, cs.Site)})
 			return nil
